@@ -115,6 +115,8 @@ def playback(harness, args=()):
 register('C16', 'c16::')
 register('C16', 'c02::')
 register('C02', 'c02::')
+register('C03', 'c03::')
+register('C17', 'c03::')
 register('C12', 'c12::', bounded='point lists of length 1..=4 (one harness per length), i8 components, no overflow assumed; unwinding assertions on')
 register('C17', 'c17::left_u8', args=['-Z', 'unstable-options', '--no-overflow-checks'])
 register('C17', 'c17::left_i8', tier='thorough', args=['-Z', 'unstable-options', '--no-overflow-checks'])
